@@ -236,6 +236,12 @@ func (s *Scanner) newWorkerConfig(d *desc) (*workerConfig, error) {
 	if err != nil {
 		return nil, err
 	}
+	// the parser has opened d.File by name: it must still be the file the descriptor stands for. The name may have
+	// been replaced since scanPaths looked at it; the next sync then finds the new file under its own id
+	if fi, err := os.Stat(d.File); err != nil || utils.GetFileId(d.File, fi) != d.Id {
+		_ = p.Close()
+		return nil, fmt.Errorf("the file %s was replaced after it had been scanned", d.File)
+	}
 
 	id := int(atomic.AddInt32(&s.workerIdCnt, 1))
 	return &workerConfig{
